@@ -163,7 +163,12 @@ def run_case(c):
                 dec0 = {a.name: MN.cvec(a.total_decayed, names) for a in arcs if hasattr(a, "total_decayed")}
                 for tag, v in c["steps"][t]:
                     offer = {k: Ex(x) for k, x in v.items()}
+                    held0 = MN.tank_stock(tank, names)[0]
                     reply = feed.send_push_request(offer, tag=tag)
+                    held1 = MN.tank_stock(tank, names)[0]
+                    if held1 > max(frac(tank.capacity), held0) + DUST:
+                        bad.append(("C05", f"timestep {t}: an unforced push of {v['volume']} raised what the {type(sw).__name__}'s tank holds (arrived + queued) "
+                                           f"from {held0} to {held1}, above its capacity {frac(tank.capacity)}"))
                     took = frac(v["volume"]) - frac(reply["volume"])
                     if took > 0:
                         if qgw or tag in ("Land", "Demand"):
